@@ -314,6 +314,10 @@ def gen(tier, rng):
             m, f = odd_modulus(rng, w)
             if m > 1:
                 out(f"c10.b.monty_inv {l} {hx(m)} {hx(operand(rng, w, m, f))} {form}")
+            # modulus 1: every value (i.e. 0) is invertible, in EVERY form incl. the vartime ones (seed C10-m9: a zero fast path
+            # in invert_vartime answered none); and zero modulo a larger modulus is never invertible
+            out(f"c10.b.monty_inv {l} 1 {hx(rng.choice([0, 0, 1, rng.getrandbits(w)]))} {form}")
+            out(f"c10.b.monty_inv {l} {hx(rng.getrandbits(w) | 3)} 0 {form}")
 
     # ---------------- gcd
     for n in FIXED:
